@@ -77,6 +77,8 @@ class C04(FragHarness, WrapHarness):
         # sentence templates (paragraph-sized texts with a few symbolic characters), all widths
         tb = {'feat': 'full', 'algo': 'F', 'sep': 'A', 'split': 'H', 'bw': True, 'ind': 'both', 'imax': 1}
         out += std_tmpl_spaces(tb, q, entry='wrap')
+        out += atmpl_spaces(dict(tb, ind='none') if q else tb, ['short', 'wide'] if q else ['short', 'wide', 'sentence', 'ansi', 'paras'],
+                            ADV[:8] if q else ADV, entry='wrap')
         for e in ('fill_inplace', 'unfill', 'dedent', 'indent'):
             out += std_tmpl_spaces({'feat': 'full'}, q, variants=False, entry=e)
         if not q:
